@@ -4,7 +4,7 @@
    (None = outside the documented range), see C03_Proofs.v. *)
 From Coq Require Import String ZArith List Bool QArith.
 From HD Require Import Base.Val Base.PySlice C03_Model C03_Proofs C03_Proofs_Geom C03_Proofs_Stack C03_Proofs_Sub
-  C03_Proofs_Infer C03_Proofs_Strict.
+  C03_Proofs_Infer C03_Proofs_Strict C03_Proofs_NoHint.
 From HD Require Base.Lin3.
 Import ListNotations.
 Open Scope Z_scope.
@@ -596,3 +596,32 @@ Theorem C03_tile_frames_complete : forall org rowcos colcos spr spc MR MC th tw 
      (tile_frames org rowcos colcos spr spc MR MC th tw M omit).
 Proof. exact tile_frames_complete. Qed.
 Print Assumptions C03_tile_frames_complete.
+
+(* ---- gap-tolerant read-back WITHOUT a recorded slice spacing --------------------------- *)
+(* (plain images with missing frames and no SpacingBetweenSlices) planes p0 + m sp n with
+   distinct integers m in any order, two of them adjacent (so sp IS the smallest gap), sp above
+   the equality tolerance of spatial.py: the spacing found as the minimum sorted difference is
+   (Qeq) sp, and origin / indices / number of slices are those of C03_stack_on_line *)
+Open Scope Q_scope.
+Theorem C03_stack_on_line_nohint : forall (rowcos colcos p0 : v3) (sp : Q),
+  vdot (normal rowcos colcos) (normal rowcos colcos) == 1 -> 0 < sp -> EQTOL < sp ->
+  forall (st : stored) (ms : list Z) (a : Z),
+  st_rowcos st = rowcos -> st_colcos st = colcos -> st_sbs st = None ->
+  Forall2 (on_line (normal rowcos colcos) p0 sp) (map fst (st_planes st)) ms -> NoDup ms ->
+  In a ms -> In (a + 1)%Z ms ->
+  exists origin mmin n0 sp',
+    sp' == sp /\ In mmin ms /\ (forall m, In m ms -> (0 <= m - mmin < n0)%Z) /\ In (mmin + n0 - 1)%Z ms /\
+    In origin (map fst (st_planes st)) /\ on_line (normal rowcos colcos) p0 sp origin mmin /\
+    stacked_full true st =
+    Ok (attr_aff origin rowcos colcos (st_spr st) (st_spc st) sp', n0, map (fun m => (m - mmin)%Z) ms).
+Proof. exact stacked_nohint. Qed.
+Print Assumptions C03_stack_on_line_nohint.
+
+Example C03_nohint_example :
+  let rc := V3 1 0 0 in let cc := V3 0 1 0 in
+  let plane m := vadd (V3 1 2 3) (vscale (inject_Z m * (5 # 2)) (normal rc cc)) in
+  exists G, stacked_full true (Stored rc cc (1 # 2) (1 # 4) None 1 2
+                                      [(plane 4%Z, [[1;0]]%Z); (plane 0%Z, [[0;1]]%Z); (plane 1%Z, [[2;2]]%Z)])
+            = Ok (G, 5%Z, [4; 0; 1]%Z) /\ a0 G =v= vscale (5 # 2) (normal rc cc).
+Proof. eexists. split; [vm_compute; reflexivity|]. vm_compute. repeat split; intros; discriminate. Qed.
+Print Assumptions C03_nohint_example.
